@@ -397,10 +397,112 @@ fn builders_check(run: &Run) {
     }
 }
 
+/// Is every element of the value of the declared element type, at every level?
+fn deeply_homogeneous(v: &LhsValue<'_>) -> bool {
+    use wirefilter::GetType;
+    match v {
+        LhsValue::Array(a) => {
+            let et = a.value_type();
+            a.iter().all(|e| e.get_type() == et && deeply_homogeneous(e))
+        }
+        LhsValue::Map(m) => {
+            let et = m.value_type();
+            m.iter().all(|(_, e)| e.get_type() == et && deeply_homogeneous(e))
+        }
+        _ => true,
+    }
+}
+
+/// The statically typed builders (`TypedArray`, `TypedMap`) nested in one another, one to three
+/// levels, with 0..2 elements per level: the loosely typed value they convert into has the full
+/// nested type, is homogeneous at every level and is accepted by exactly the field of that type.
+fn typed_builders_check(run: &Run) {
+    use wirefilter::{GetType, TypedArray, TypedMap};
+    let mut b = SchemeBuilder::new();
+    let a = |t: Ty| Ty::arr(t);
+    let m = |t: Ty| Ty::map(t);
+    let field_types: Vec<Ty> = vec![
+        a(Ty::Int), a(Ty::Bool), a(Ty::Bytes), m(Ty::Int), m(Ty::Bytes),
+        a(a(Ty::Int)), a(m(Ty::Int)), m(a(Ty::Int)), m(m(Ty::Int)), m(m(Ty::Bytes)),
+        a(a(a(Ty::Int))), a(a(m(Ty::Bool))), a(m(a(Ty::Int))), a(m(m(Ty::Int))), m(a(m(Ty::Int))), m(m(a(Ty::Int))), m(a(a(Ty::Int))), m(m(m(Ty::Int))),
+    ];
+    for (i, t) in field_types.iter().enumerate() {
+        b.add_optional_field(format!("f{i}"), t.to_engine()).expect("field");
+    }
+    let scheme = b.build();
+    let key = |n: usize| format!("k{n}").into_bytes().into_boxed_slice();
+    // (description, value, expected full type)
+    let mut cases: Vec<(String, LhsValue<'static>, Ty)> = Vec::new();
+    for n in 0..3usize {
+        let ints = || (0..n as i64).collect::<TypedArray<'static, i64>>();
+        let imap = || (0..n).map(|k| (key(k), k as i64)).collect::<TypedMap<'static, i64>>();
+        let bmap = || (0..n).map(|k| (key(k), k % 2 == 0)).collect::<TypedMap<'static, bool>>();
+        macro_rules! case {
+            ($d:expr, $v:expr, $t:expr) => {
+                cases.push((format!("{} with {n} element(s) per level", $d), LhsValue::from($v), $t));
+            };
+        }
+        case!("TypedArray<i64>", wirefilter::Array::from(ints()), a(Ty::Int));
+        case!("TypedArray<bool>", wirefilter::Array::from((0..n).map(|k| k % 2 == 1).collect::<TypedArray<'static, bool>>()), a(Ty::Bool));
+        case!("TypedArray<&[u8]>", wirefilter::Array::from((0..n).map(|_| &b"v"[..]).collect::<TypedArray<'static, &'static [u8]>>()), a(Ty::Bytes));
+        case!("TypedMap<i64>", wirefilter::Map::from(imap()), m(Ty::Int));
+        case!("TypedMap<&[u8]>", wirefilter::Map::from((0..n).map(|k| (key(k), &b"v"[..])).collect::<TypedMap<'static, &'static [u8]>>()), m(Ty::Bytes));
+        case!("TypedArray<TypedArray<i64>>", wirefilter::Array::from((0..n).map(|_| ints()).collect::<TypedArray<'static, TypedArray<'static, i64>>>()), a(a(Ty::Int)));
+        case!("TypedArray<TypedMap<i64>>", wirefilter::Array::from((0..n).map(|_| imap()).collect::<TypedArray<'static, TypedMap<'static, i64>>>()), a(m(Ty::Int)));
+        case!("TypedMap<TypedArray<i64>>", wirefilter::Map::from((0..n).map(|k| (key(k), ints())).collect::<TypedMap<'static, TypedArray<'static, i64>>>()), m(a(Ty::Int)));
+        case!("TypedMap<TypedMap<i64>>", wirefilter::Map::from((0..n).map(|k| (key(k), imap())).collect::<TypedMap<'static, TypedMap<'static, i64>>>()), m(m(Ty::Int)));
+        case!("TypedMap<TypedMap<&[u8]>>", wirefilter::Map::from((0..n).map(|k| (key(k), (0..n).map(|j| (key(j), &b"v"[..])).collect::<TypedMap<'static, &'static [u8]>>())).collect::<TypedMap<'static, TypedMap<'static, &'static [u8]>>>()), m(m(Ty::Bytes)));
+        case!("TypedArray<TypedArray<TypedArray<i64>>>", wirefilter::Array::from((0..n).map(|_| (0..n).map(|_| ints()).collect::<TypedArray<'static, TypedArray<'static, i64>>>()).collect::<TypedArray<'static, TypedArray<'static, TypedArray<'static, i64>>>>()), a(a(a(Ty::Int))));
+        case!("TypedArray<TypedArray<TypedMap<bool>>>", wirefilter::Array::from((0..n).map(|_| (0..n).map(|_| bmap()).collect::<TypedArray<'static, TypedMap<'static, bool>>>()).collect::<TypedArray<'static, TypedArray<'static, TypedMap<'static, bool>>>>()), a(a(m(Ty::Bool))));
+        case!("TypedArray<TypedMap<TypedArray<i64>>>", wirefilter::Array::from((0..n).map(|_| (0..n).map(|k| (key(k), ints())).collect::<TypedMap<'static, TypedArray<'static, i64>>>()).collect::<TypedArray<'static, TypedMap<'static, TypedArray<'static, i64>>>>()), a(m(a(Ty::Int))));
+        case!("TypedArray<TypedMap<TypedMap<i64>>>", wirefilter::Array::from((0..n).map(|_| (0..n).map(|k| (key(k), imap())).collect::<TypedMap<'static, TypedMap<'static, i64>>>()).collect::<TypedArray<'static, TypedMap<'static, TypedMap<'static, i64>>>>()), a(m(m(Ty::Int))));
+        case!("TypedMap<TypedArray<TypedMap<i64>>>", wirefilter::Map::from((0..n).map(|k| (key(k), (0..n).map(|_| imap()).collect::<TypedArray<'static, TypedMap<'static, i64>>>())).collect::<TypedMap<'static, TypedArray<'static, TypedMap<'static, i64>>>>()), m(a(m(Ty::Int))));
+        case!("TypedMap<TypedMap<TypedArray<i64>>>", wirefilter::Map::from((0..n).map(|k| (key(k), (0..n).map(|j| (key(j), ints())).collect::<TypedMap<'static, TypedArray<'static, i64>>>())).collect::<TypedMap<'static, TypedMap<'static, TypedArray<'static, i64>>>>()), m(m(a(Ty::Int))));
+        case!("TypedMap<TypedArray<TypedArray<i64>>>", wirefilter::Map::from((0..n).map(|k| (key(k), (0..n).map(|_| ints()).collect::<TypedArray<'static, TypedArray<'static, i64>>>())).collect::<TypedMap<'static, TypedArray<'static, TypedArray<'static, i64>>>>()), m(a(a(Ty::Int))));
+        case!("TypedMap<TypedMap<TypedMap<i64>>>", wirefilter::Map::from((0..n).map(|k| (key(k), (0..n).map(|j| (key(j), imap())).collect::<TypedMap<'static, TypedMap<'static, i64>>>())).collect::<TypedMap<'static, TypedMap<'static, TypedMap<'static, i64>>>>()), m(m(m(Ty::Int))));
+    }
+    for (what, value, want_ty) in &cases {
+        run.eval(1);
+        run.count("typed_builder_cases", 1);
+        let got_ty = Ty::from_engine(value.get_type());
+        let mut problems = Vec::new();
+        if got_ty != *want_ty {
+            problems.push(format!("its type is {}, expected {}", got_ty.short(), want_ty.short()));
+        }
+        if !deeply_homogeneous(value) {
+            problems.push("an element's type differs from the declared element type of its container".to_string());
+        }
+        // accepted by exactly the field of its type
+        for (i, ft) in field_types.iter().enumerate() {
+            let mut ctx = ExecutionContext::<()>::new(&scheme);
+            let f = scheme.get_field(&format!("f{i}")).expect("field");
+            let r = guarded(|| ctx.set_field_value(f, value.clone()).is_ok());
+            run.eval(1);
+            match r {
+                Err(p) => problems.push(format!("setting it into a field of type {} panicked: {p}", ft.short())),
+                Ok(ok) => {
+                    if ok != (ft == want_ty) {
+                        problems.push(format!("setting it into a field of type {} {}", ft.short(), if ok { "succeeded" } else { "failed" }));
+                    } else if ok {
+                        let stored = ctx.get_field_value(f).map(|v| deeply_homogeneous(v) && Ty::from_engine(v.get_type()) == *ft);
+                        if stored != Some(true) {
+                            problems.push(format!("the value stored in the field of type {} is not of that type throughout", ft.short()));
+                        }
+                    }
+                }
+            }
+        }
+        for p in problems {
+            run.violation(format!("{ID}:typed-builder:{what}:{}", p.split(':').next().unwrap_or("")), format!("{what}: {p}"), json!({"kind": "c08-builder", "typed": what}));
+        }
+    }
+}
+
 pub fn run(tier: Tier, seed: u64) -> i32 {
     let run = Run::new(ID, "model_checking", tier, seed);
     run.assume("a context's observable state is its serialisation plus the scheme it is bound to; states with equal observations are merged");
     builders_check(&run);
+    typed_builders_check(&run);
     let w = World::new();
     let max_depth = tier.pick(5usize, 64usize);
     let init: State = vec![MC { sch: 0, vals: [None, None, None, None] }];
@@ -510,6 +612,7 @@ pub fn replay(case: &serde_json::Value) -> Result<u64, String> {
     if case["kind"] == "c08-builder" {
         let run = Run::new("replay", "model_checking", Tier::Quick, 0);
         builders_check(&run);
+        typed_builders_check(&run);
         return Ok(run.violations_seen());
     }
     let st: State = serde_json::from_value(case["state"].clone()).map_err(|e| e.to_string())?;
